@@ -38,8 +38,14 @@ func mkMsg(name, def string) string {
 	return def
 }
 
+// scriptNoVariants fixes the representative of each error class (for harnesses
+// whose subject does not depend on it); scriptClasses limits the fault classes
+// (3: ok/temporary/permanent; 4 adds unclassified).
+var scriptNoVariants bool
+var scriptClasses = 4
+
 func mkErr(name string, class int) error {
-	alt := nondetBool(name + ".variant")
+	alt := !scriptNoVariants && nondetBool(name+".variant")
 	switch class {
 	case fTemp:
 		if alt {
@@ -117,7 +123,7 @@ func (t *scriptTarget) fault(name string) int {
 	if t.faultFree {
 		return fOK
 	}
-	return nondetInt(fmt.Sprintf("%s.%d.%s", t.name, t.attempt, name), 0, 3)
+	return nondetInt(fmt.Sprintf("%s.%d.%s", t.name, t.attempt, name), 0, scriptClasses-1)
 }
 
 func (t *scriptTarget) Start(ctx context.Context, msgMeta *module.MsgMetadata, mailFrom string) (module.Delivery, error) {
